@@ -416,7 +416,11 @@ def run(tier, seed):
     ctx = multiprocessing.get_context("fork")
     with ProcessPoolExecutor(max_workers=check.NPROC, mp_context=ctx) as ex:
         futs = [ex.submit(_worker, (s, tier)) for s in seeds]
+        wall = float(os.environ.get("PROVSIM_WALL", wall))
         for f in futs:
+            if time.time() - t0 > wall and f.cancel():
+                agg["not_run_wall_cap"] = agg.get("not_run_wall_cap", 0) + 1
+                continue  # wall cap reached: scenarios not yet started are dropped, never a pass/fail
             remaining = max(5.0, wall * 3 - (time.time() - t0))
             try:
                 st = f.result(timeout=remaining)
@@ -474,6 +478,7 @@ def run(tier, seed):
             "rule": C17.rule,
             "samples": samples or [{"note": "none"}],
             "scenarios": agg["scenarios"],
+            "scenarios_not_run_because_of_the_wall_cap": agg.get("not_run_wall_cap", 0),
             "instants_in_fault_free_traces": agg["instants"],
             "faults_fired_by_kind_and_instant": agg["fired"],
             "faults_fired_total": nfired,
